@@ -271,7 +271,16 @@ func (c19) Gen(seed uint64, tier string) *Scenario {
 	ps.Statements = m.Stmts
 	ps.Flags = m.Flags
 	// fault plan
-	switch r.Intn(12) {
+	switch r.Intn(13) {
+	case 12:
+		// the file behind --out is removed by another program while csvq runs (at the k-th yield of the
+		// process): whatever csvq wanted to do with it at the end, it ends cleanly
+		m.Fault = "rmout"
+		ps.Shell = false
+		ps.Program = strings.Join(m.Stmts, "\n")
+		ps.OutFile = "out.txt"
+		ps.Quiet = r.Bool(0.5)
+		sc.Mutate = &MutateSpec{File: "out.txt", Mode: "remove", Every: r.Range(1, 40), Max: 1}
 	case 11:
 		// a program that knows nothing of csvq's lock files keeps writing to the table while csvq works
 		// (a log that grows, a file whose modification time moves): csvq ends with whatever it read
